@@ -38,10 +38,10 @@ ValidateStmt(c) ==
 
 Max2(a, b) == IF a >= b THEN a ELSE b
 Min2(a, b) == IF a <= b THEN a ELSE b
-Abs(a) == IF a < 0 THEN -a ELSE a
+IAbs(a) == IF a < 0 THEN -a ELSE a
 \* tr_close as coded (one subtraction) and the textbook three-way maximum, on finite integers
 TRCoded(h, l, pc) == Max2(h, pc) - Min2(l, pc)
-TRText(h, l, pc) == Max2(h - l, Max2(Abs(h - pc), Abs(l - pc)))
+TRText(h, l, pc) == Max2(h - l, Max2(IAbs(h - pc), IAbs(l - pc)))
 
 \* Candle + rhs: keeps open, max high, min low, rhs close, summed volume
 VAdd(a, b) == IF IsNaN(a) \/ IsNaN(b) THEN NAN ELSE a + b          \* an absent (NaN) volume makes the sum absent
